@@ -21,7 +21,7 @@ EXPLANATION = (
     "_check_operands, _check_x86_operands, _check_AArch64_operands, _is_x86_reg_type, "
     "_is_AArch64_reg_type, _is_x86_mem_type, _is_AArch64_mem_type with their decision tables; a "
     "disagreement prints the distinguishing operand-kind combination. D1: every operand pattern of every "
-    "shipped entry lies in the set the matcher can match (else the entry can never be selected)."
+    "shipped entry lies in the set the matcher can match (else the entry can never be selected). R7: the classifiers of the x86 parser that the matcher consults (is_vector_register, and through it the final gpr branch of _is_x86_reg_type) recognise exactly the architectural vector classes mm/xmm/ymm/zmm - as a literal list or as a constant regular expression evaluated on the class names - so that no MMX/vector register is taken for a general-purpose one (obligations of C12-R1, embedded)."
 )
 NOT_DECIDED = "Comparison with an independent matcher on generated models and instructions (behavioural)."
 ASSUMPTIONS = [
@@ -510,3 +510,10 @@ def run(ctx):
     _r5(ctx)
     _r6(ctx)
     _d1(ctx)
+    # R7: the x86 register-kind decision rests on the parser's classifiers (is_vector_register keeps non-GPR registers out
+    # of the final `gpr` branch of _is_x86_reg_type): their class tables are the architectural ones (shared with C12-R1)
+    from . import c12
+    ctx.rule("R7", "register classifiers the matcher relies on (is_vector_register, alias table, numbered-register regex) are the architectural ones (C12-R1)")
+    C.embed(ctx, "C12", lambda sub: c12._x86(sub), "R7", "x86 register classes (C12-R1)",
+            "a register is put into the wrong class, so an entry declaring another kind of register at that position is accepted "
+            "(_is_x86_reg_type ends in `return True` for entries of class gpr)", ctx.func("ParserX86ATT.is_vector_register").where())
